@@ -12,7 +12,8 @@ IsUpper(c) == c \in 65..90
 IsLower(c) == c \in 97..122
 IsDigit(c) == c \in 48..57
 IsAlpha(c) == IsUpper(c) \/ IsLower(c)
-IsAlnum(c) == IsAlpha(c) \/ IsDigit(c)
+\* identifiers may contain non-ASCII letters: alphanumeric (they never split a word), caseless in this model
+IsAlnum(c) == IsAlpha(c) \/ IsDigit(c) \/ c > 127
 
 Lo(c) == IF IsUpper(c) THEN c + 32 ELSE c
 Up(c) == IF IsLower(c) THEN c - 32 ELSE c
